@@ -226,3 +226,16 @@ Ltac destruct_pairs := repeat match goal with x : (_ * _)%type |- _ => destruct 
 (* tac k for k = n-1, .., 0 until one succeeds *)
 Ltac upto n tac := lazymatch n with O => fail | S ?k => first [ tac k | upto k tac ] end.
 Ltac neq_nat a b := lazymatch eval compute in (Nat.eqb a b) with false => idtac end.
+
+(* closed constant sub-terms the translator may leave unevaluated when the C code writes a constant as an expression
+   (`(uint8_t)0x80 | 0x1F`, an enum arithmetic, a cast of a literal): fold them to numerals before matching *)
+Ltac z_is_lit x := lazymatch x with Z0 => idtac | Zpos _ => idtac | Zneg _ => idtac end.
+Ltac fold_consts :=
+  repeat match goal with
+  | |- context [wrapz ?w ?x] => z_is_lit w; z_is_lit x; let v := eval vm_compute in (wrapz w x) in change (wrapz w x) with v
+  | |- context [Z.lor ?a ?b] => z_is_lit a; z_is_lit b; let v := eval vm_compute in (Z.lor a b) in change (Z.lor a b) with v
+  | |- context [Z.land ?a ?b] => z_is_lit a; z_is_lit b; let v := eval vm_compute in (Z.land a b) in change (Z.land a b) with v
+  | |- context [Z.add ?a ?b] => z_is_lit a; z_is_lit b; let v := eval vm_compute in (Z.add a b) in change (Z.add a b) with v
+  | |- context [Z.mul ?a ?b] => z_is_lit a; z_is_lit b; let v := eval vm_compute in (Z.mul a b) in change (Z.mul a b) with v
+  | |- context [Z.shiftl ?a ?b] => z_is_lit a; z_is_lit b; let v := eval vm_compute in (Z.shiftl a b) in change (Z.shiftl a b) with v
+  end.
